@@ -114,6 +114,10 @@ class ProtoExporter:
         if id(module) in self.modules_by_id:  # Already done
             return self.modules_by_id[id(module)].pmod
 
+        if module._elab_failure is not None:
+            # Left partially elaborated by a failed elaboration pass. Not the design, whichever passes have run since.
+            raise module._elab_failure
+
         if module.bundles:  # Invalid, should have been elaborated out.
             msg = f"Invalid attribute for Proto export: Module {module.name} with Bundles {list(module.bundles.keys())}"
             raise RuntimeError(msg)
